@@ -158,7 +158,7 @@ func judgeTravRace(args, real, _ json.RawMessage) *core.Verdict {
 		return core.Disagree("malformed race exchange")
 	}
 	if r.Skipped {
-		return core.Skip("this lane already killed three hanging helper processes")
+		return core.Skip("this lane already saw three walks that did not return")
 	}
 	if r.Unavailable != "" {
 		if raceToolchainLimit(r.Unavailable) {
@@ -199,9 +199,24 @@ func judgeTravRace(args, real, _ json.RawMessage) *core.Verdict {
 	return nil
 }
 
+// travRaceStuck counts the walks of this lane that did not return (each costs the helper's 25 s watchdog); after the third
+// the failure is established and the remaining cases of the lane are skipped
+var travRaceStuck int
+
+func runTravRaceJob(raw json.RawMessage) any {
+	if travRaceStuck >= 3 {
+		return raceReal{Skipped: true, Races: []string{}}
+	}
+	res := runRaceJob(raw)
+	if r, ok := res.(raceReal); ok && (r.Hang || strings.Contains(string(r.Out), "\"deadlock:")) {
+		travRaceStuck++
+	}
+	return res
+}
+
 func init() {
 	core.Register("travRace", &core.CheckDef{
-		Real:    func(raw json.RawMessage) any { return runRaceJob(raw) },
+		Real:    runTravRaceJob,
 		Judge:   judgeTravRace,
 		Timeout: 6 * time.Minute,
 	})
